@@ -1,6 +1,6 @@
 (* C02 - ForceFlush and Shutdown are complete, final (and always return: evidenced by the scheduled runs, not a theorem).
    Property theorems only; proofs are in Batch/Proofs*.v and Batch/Theorems.v. *)
-From V Require Import Batch.Model Batch.ProofsA Batch.ProofsB Batch.Theorems Batch.Compose Batch.ComposeProofs Batch.Periodic Batch.PeriodicProofs.
+From V Require Import Batch.Model Batch.ProofsA Batch.ProofsB Batch.Theorems Batch.Compose Batch.ComposeProofs Batch.Periodic Batch.PeriodicProofs Batch.Progress.
 From Coq Require Import List Arith.
 Import ListNotations.
 
@@ -42,6 +42,25 @@ Print Assumptions c02_after_shutdown_calls_inert.
 Theorem c02_shutdown_is_final : forall s te s', accept s te = Some s' -> is_shut s = true -> is_shut s' = true.
 Proof. exact is_shut_stable. Qed.
 Print Assumptions c02_shutdown_is_final.
+
+(* termination, logical core: the worker is never blocked by another thread, and running alone (application threads quiescent,
+   exporter calls return) it drains the queue and publishes every pending ticket / exits within a bound computed from the state.
+   Termination under arbitrary fair scheduling with perpetual producers is NOT claimed as a theorem (evidenced by the scheduled runs). *)
+Theorem c02_worker_never_stuck : forall s, Inv s -> 0 < Bsz s -> wp s <> WDone -> exists s', wstep s = Some s'.
+Proof. exact worker_never_stuck. Qed.
+Print Assumptions c02_worker_never_stuck.
+
+Theorem c02_worker_solo_flush_progress : forall s, Inv s -> 0 < Bsz s -> is_shut s = false ->
+  exists n s', n <= 15 + 3 * (length (enq s) - deq s) /\ witer n s = Some s' /\ notified s' = pending s /\ pending s' = pending s /\
+               enq s' = enq s /\ deq s' = length (enq s) /\ inflight s' = None.
+Proof. exact worker_solo_flush_progress_bound. Qed.
+Print Assumptions c02_worker_solo_flush_progress.
+
+Theorem c02_worker_solo_shutdown_progress : forall s, Inv s -> 0 < Bsz s -> is_shut s = true -> wp s <> WDone ->
+  (forall p n, wp s = WDrainLd p n -> deq s = length (enq s)) ->
+  exists n s', witer n s = Some s' /\ wp s' = WDone /\ enq s' = enq s /\ deq s' = length (enq s) /\ pending s' = pending s.
+Proof. exact worker_solo_shutdown_progress. Qed.
+Print Assumptions c02_worker_solo_shutdown_progress.
 
 (* provider level (TracerProvider / LoggerProvider / MeterProvider over any children, any call sequence) *)
 Theorem c02_compose_meets_spec : forall k cs ops, spec_compose k (length cs) (model k cs ops) = [].
